@@ -110,6 +110,7 @@ type Exec struct {
 	replay        *ReplayInfo
 	loopHead      *State
 	inLoopHavoc   bool
+	litOrd        map[*ast.FuncLit]int
 	written       map[string]bool // heap keys written on objects the caller can see
 	factSink      *State // receives type-invariant facts discovered while evaluating contract expressions
 }
@@ -167,7 +168,7 @@ func (x *Exec) oblige(st *State, kind, name, label string, goal *Term, pos token
 		p := x.pkg.Fset.Position(pos)
 		o.Pos = fmt.Sprintf("%s:%d", shortFile(p.Filename), p.Line)
 	}
-	if x.coarse {
+	if x.coarse && !(x.c != nil && x.c.Opts["safety"] == "true") {
 		// coarse units track a few ghost facts through mostly abstracted code:
 		// their machine-level safety conditions are not claimed
 		switch kind {
